@@ -15,7 +15,9 @@ RULE = ("random template sets of 2-4 templates: include (single name / list / Te
         "context; ignore missing; missing names), import and from-import (aliases, with / without context, missing "
         "names, nested through included and imported templates, cycles), top-level set / macro / private names, "
         "locals from for loops, with blocks and private macros called in place, environment / main-template / "
-        "per-template globals, data shadowing globals; each set is rendered and the module of every template is "
+        "per-template globals, data shadowing globals and later-assigned names; plus an enumerated family (scope handed "
+        "to a target before / after an assignment x 4 scope kinds x 5 statement kinds x 3 data shapes; include lists "
+        "with partially loaded candidates); each set is rendered and the module of every template is "
         "read. distinct = driver line; non-trivial = at least one include or import that resolves and at least one "
         "probe inside a target template.")
 KNOWN_SIG = "C05:import-globals-read-from-context-parent"
@@ -146,6 +148,9 @@ def run(ctx):
     B = 2000
     for i in range(0, n, B):
         run_sets(ctx, jinja2, [g.tset() for _ in range(min(B, n - i))])
+    # small-scope families: scope handed on before / after an assignment in every scope kind; include lists whose
+    # later candidate is already loaded
+    run_sets(ctx, jinja2, G.directed_sets())
     # the recorded finding, minimal form, re-observed on every run
     ts = {"templates": {"main": {"globals": {"mg": "MG"}, "body": [("I", ("n", "t1"), "m1", None), ("a", "m1", "a")]},
                         "t1": {"globals": {}, "body": [("s", "a", ("v", "mg"))]}},
